@@ -291,6 +291,8 @@ func parseOps(s string) []stOp {
 		case "c":
 			mb, _ := strconv.ParseUint(f[1], 10, 64)
 			ops = append(ops, stOp{kind: 'c', cap: mb})
+		case "x":
+			ops = append(ops, stOp{kind: 'x', id: unhx(f[1]), val: parseVal(f[2])})
 		case "b":
 			n, _ := strconv.Atoi(f[1])
 			sd, _ := strconv.Atoi(f[2])
@@ -315,6 +317,8 @@ func opsString(ops []stOp) string {
 			p[i] = fmt.Sprintf("c,%d", o.cap)
 		case 'b':
 			p[i] = fmt.Sprintf("b,%d,%d", o.count, o.seed)
+		case 'x':
+			p[i] = "x," + hx(o.id) + "," + o.val.String()
 		default:
 			p[i] = "r"
 		}
@@ -326,7 +330,7 @@ func idPool(ops []stOp) [][]byte {
 	var ids [][]byte
 	seen := map[string]bool{}
 	for _, o := range ops {
-		if o.kind == 'r' || o.kind == 'c' || o.kind == 'b' {
+		if o.kind == 'r' || o.kind == 'c' || o.kind == 'b' || o.kind == 'x' {
 			continue
 		}
 		if !seen[string(o.id)] {
@@ -374,6 +378,12 @@ func stHistory(c *Ctx, kind string, capMB uint64, node [32]byte, ops []stOp) {
 				s.pruned = true
 			case 'g':
 				res = s.get(o.id)
+			case 'x':
+				// a foreign entry written into the database behind the store's back (o.id is the raw key)
+				if err := s.db.Set(o.id, o.val.Bytes(), pebble.NoSync); err != nil {
+					panic(err)
+				}
+				res = "-"
 			case 'b':
 				acc := 0
 				for i := 0; i < o.count; i++ {
@@ -827,6 +837,27 @@ func stManyTiny(c *Ctx, kind string, count int, seed int) {
 	stHistory(c, kind, 1, node, ops)
 }
 
+// Directed history (f05 lines, monitors on the implementation's observations only - a database holding a key that is
+// not 32 bytes is outside the model): three near items, then a FOREIGN 33-byte key written into the database exactly
+// where the next pruning pass will stop, then the over-capacity put - its item is committed, then prune() fails on the
+// undecodable key - then further puts (a restart of such a database fails in NewStorage).  Whatever Put returns, what is held must stay on the usage figure.
+func stPruneFails(c *Ctx, seed int) {
+	var node [32]byte
+	key := func(a byte) []byte { k := make([]byte, 32); k[0] = a; k[31] = byte(seed); return k }
+	vid := uint64(9700 + 100*seed)
+	big := func(n int) stVal { vid++; return stVal{long: true, vid: vid, n: n} }
+	ops := []stOp{
+		{kind: 'p', id: key(1), val: big(300000)}, {kind: 'p', id: key(2), val: big(300000)}, {kind: 'p', id: key(3), val: big(300000)},
+		{kind: 'x', id: append(key(4), 0x77), val: stVal{raw: []byte{1, 2, 3, 4, 5}}},
+		{kind: 'p', id: key(5), val: big(100000 + 1000*(seed%90))}, // over capacity: committed, then the prune errors
+		{kind: 'g', id: key(5)},
+		{kind: 'p', id: key(1), val: big(20000)}, {kind: 'p', id: key(2), val: stVal{raw: []byte{9, 9}}},
+		{kind: 'p', id: key(6), val: big(30000)}, {kind: 'p', id: key(7), val: stVal{raw: []byte{1}}},
+	}
+	c.Count("prune_fails_history")
+	stHistory(c, "f05", 1, node, ops)
+}
+
 func stThr(c *Ctx, capMB uint64) {
 	a, b := spebble.VerifThresholds(capMB)
 	c.Emit("thr %d | ok %d %d", capMB, a, b)
@@ -967,7 +998,7 @@ func stExecLine(c *Ctx, ln string) {
 	}
 	atoi := func(s string) int { n, _ := strconv.Atoi(s); return n }
 	switch {
-	case (f[0][0] == 'h' || f[0] == "z04") && len(f) == 4:
+	case (f[0][0] == 'h' || f[0] == "z04" || f[0] == "f05") && len(f) == 4:
 		var node [32]byte
 		copy(node[:], unhx(f[2]))
 		stHistory(c, f[0], uint64(atoi(f[1])), node, parseOps(f[3]))
@@ -1079,6 +1110,8 @@ func runStorage(c *Ctx, prop string) {
 			}
 			stHistory(c, kind, capMB, node, genOps(c, capMB, ids, nops, prof, r.Intn(3) == 0))
 		}
+		stPruneFails(c, 1+r.Intn(200))
+		stPruneFails(c, 1+r.Intn(200))
 		stManyTiny(c, kind, 1500, 1+r.Intn(200))
 		stManyTiny(c, kind, 2600, 1+r.Intn(200))
 		if thorough {
